@@ -13,6 +13,8 @@
      [17 kind n] Read (kind 0 eof, 1 data with n messages, 2 error) [18 b] ChkClosing
      [19 [] | [rid]] Dispatch [20] CbRaise [21 [] | [rid]] CbClose [22] ErrBroadcast [23] WorkerCloseCall [24] Exit
      [25 n] Arrive (SSH: a chunk completing n messages enters the channel buffer)
+     [26] Block (the read in progress sleeps inside the transport) [27] Unblock (it goes on, the handle still open)
+   worker: 0 not started, 1..12 as the constructors of wpc without WBlocked, 13 WBlocked
    chan: the chunks still buffered in the SSH channel (their message counts) *)
 From NC Require Import Model.Base Model.Close.
 
@@ -50,6 +52,7 @@ Definition dec_label (v : val) : option label :=
   | VL [VN 21; VL [VN rid]] => Some (CbClose (Some rid))
   | VL [VN 23] => Some WorkerCloseCall | VL [VN 24] => Some Exit
   | VL [VN 25; VN n] => Some (Arrive (N.to_nat n))
+  | VL [VN 26] => Some Block | VL [VN 27] => Some Unblock
   | _ => None
   end.
 
@@ -63,7 +66,7 @@ Definition enc_worker (w : wpc) : N :=
   match w with
   | WNotStarted => 0 | WTop => 1 | WSelecting => 2 | WReady => 3 | WReading _ => 4 | WDispatching _ => 5
   | WAfterTimeout => 6 | WAfterEof => 7 | WBreak => 8 | WRaised => 9 | WErrDone _ => 10 | WClosing _ _ => 11
-  | WExited => 12
+  | WExited => 12 | WBlocked => 13
   end.
 Definition enc_phase (p : phase) : N :=
   match p with PFresh => 0 | PHandle => 1 | PHello => 2 | PUp => 3 | PFailing => 4 | PFailed => 5 end.
